@@ -86,7 +86,7 @@ pub fn eval(op: &str, a: &[&str]) -> Option<String> {
             // every native operation runs twice: on this thread (whose type memo has seen whatever ran before) and on a fresh thread
             // (empty memo, so that type derivation starts at this very type); the two answers must be the same
             let here = native::dispatch(&tn, op, &a[1..]).or_else(|| native::borrowed(&tn, op, &a[1..]))?;
-            if op == "p.c06.fuzz" || op == "p.c07.native" || op == "p.c07.api" { return Some(here); }
+            if op == "p.c06.fuzz" || op == "p.c07.native" || op == "p.c07.api" || op == "p.c07.mixed" { return Some(here); }
             let (tn2, op2, rest): (String, String, Vec<String>) = (tn.clone(), op.to_string(), a[1..].iter().map(|s| s.to_string()).collect());
             let fresh = std::thread::spawn(move || { let v: Vec<&str> = rest.iter().map(|s| s.as_str()).collect(); native::dispatch(&tn2, &op2, &v).or_else(|| native::borrowed(&tn2, &op2, &v)) }).join();
             match fresh {
@@ -394,7 +394,7 @@ pub fn generate(prop: &str, thorough: bool, r: &mut Rng, em: &mut Emit) {
                 let mut b = b"DIDL".to_vec(); b.push(1); b.push(0x6d); b.push(0); b.push(1); b.push(0); b.extend(std::iter::repeat(1u8).take(depth)); b.push(0);
                 inputs.push(b);                                                        // type V = vec V; value [[[...]]]
             }
-            for (name, _, m) in &pool {
+            for (name, v07, m) in &pool {
                 let tn = tn_arg(name);
                 em.stat(&format!("type.{}", name.split('<').next().unwrap_or(name)));
                 let mut cases: Vec<Vec<u8>> = vec![m.clone()];
@@ -414,6 +414,7 @@ pub fn generate(prop: &str, thorough: bool, r: &mut Rng, em: &mut Emit) {
                 }
                 // the quota laws on native decoding of the valid message
                 em.case_nt("p.c07.native", &[tn.clone(), sx::hex(m)], true);
+                em.case_nt("p.c07.mixed", &[tn.clone(), format!("({})", v07.sx())], true);
             }
             for b in &safe {
                 let hx = sx::hex(b);
